@@ -671,6 +671,17 @@ func c03Framing(c *Ctx, w *prove.World) {
 		r.Undecided("framing", "Data.Marshal", "", "not found")
 	}
 	c03PairInvariant(c, w)
+	// (b') the decoders consume exactly the count they read: 1 + 2·WordCount and 2 + ByteCount
+	for _, wt := range []wireType{{paramsPkg, "Parameters", "plain"}, {dataPkg, "Data", "plain"}} {
+		m, u := p.Func(wt.rel, wt.name, "Marshal"), p.Func(wt.rel, wt.name, "Unmarshal")
+		if m == nil || u == nil {
+			r.Undecided("count", wt.name, "", "codec not found")
+			continue
+		}
+		enc := encStreams(w, m)["out"]
+		decs, _ := decStreams(w, u)
+		c06VarCount(c, w, wt.name, u, enc, decs["data"])
+	}
 	// (c) Message.Marshal
 	if fn := p.Func(msgPkg, "Message", "Marshal"); fn != nil {
 		enc := encStreams(w, fn)["out"]
